@@ -6,7 +6,7 @@ from concurrent.futures import ThreadPoolExecutor
 import vlib
 
 INVS = ("TypeOK OnlyAuthentic NoVerifierRejects RealNotBypassed RejectKeepsState Complete "
-        "Monotone CacheIsLastAccepted")
+        "Monotone CacheIsLastAccepted ReplayRejected ReplayAsFresh ReplayWellFormed KnownIsPresented ReplaySourced")
 
 
 def _rows(r, what):
@@ -67,17 +67,28 @@ def run(chk, replay=None):
                 "every reachable state that acceptance implies id, certificate, KES (or insecure mode without a "
                 "verifier), registration and counter >= cache, that a real verifier is never bypassed, that a "
                 "rejection changes nothing and an acceptance only its pool's cache entry, and along histories that "
-                "accepted counters of a pool never decrease between evictions. TLC emits an access history for every "
-                "state-changing transition, per state every state-preserving call, every history of exactly 3 calls "
-                "(no VIEW) and seeded pseudo-random histories of 24 calls; the driver replays them on "
-                "common.MessageAuthenticator with real Ed25519 / KES keys, a fault being one seeded corruption of that component, counters mapped monotonically onto uint64 "
+                "accepted counters of a pool never decrease between evictions. Replay dimension: a faulty component "
+                "is either made up for the message or replayed verbatim from a fully genuine message of the same "
+                "pool presented earlier in the history (its id or its KES signature on another payload; the cold "
+                "signature of its certificate with another KES key / issue number / KES period); the model tracks "
+                "which genuine messages were presented (known) and TLC checks that a replay gets the verdict of the "
+                "made-up fault (rejected, nothing changes; only a KES replay passes where no KES signature is checked "
+                "at all). TLC emits an access history for every "
+                "state-changing transition, per state every state-preserving call (two covers: two pools without "
+                "replays, one pool with `known` in the state and every replay from every state), every history of "
+                "exactly 3 calls (no VIEW; with replays in the thorough tier) and seeded pseudo-random histories of "
+                "24 calls (with replays); the driver replays them on "
+                "common.MessageAuthenticator with real Ed25519 / KES keys, a fault being one seeded corruption of that component or the replay built from the stored earlier "
+                "message (the driver's self-check proves with the primitives alone that each built message is wrong in "
+                "exactly the named components), genuine messages of a pool and counter sharing one certificate, counters mapped monotonically onto uint64 "
                 "extremes, and compares accept/reject and IsSPOPoolRegistered after every call. A case is one "
                 "(initial configuration, history) pair; all are non-trivial")
     chk.assumptions = [
         "Blake2b-256 collision free, Ed25519 and KES unforgeable (symbolic booleans in the model, real keys in the replay)",
         "RemoveKESOpCertCacheEntry forgets the pool's counter by design: 'previously accepted' means since the last eviction",
         "the KES evolution checked is the one the authenticator derives (0 without a slot, slot/129600 - payload.KESPeriod with one)",
-        "the 24-call histories are a pseudo-random sample (seeded by VERIF_SEED); the transition cover is complete for the model's 256 states; exhaustive histories have length 3",
+        "a replay's source is a message that was fully genuine (id, certificate, KES) when presented, accepted or not; replays change one component only",
+        "the 24-call histories are a pseudo-random sample (seeded by VERIF_SEED); the transition cover is complete for the models' 256 states each; exhaustive histories have length 3",
     ]
     drv = vlib.go_build("c46")
     if replay:
@@ -91,9 +102,9 @@ def run(chk, replay=None):
         vlib.run_driver(chk, drv, [path], timeout=300, env=env)
         return
     if chk.tier == "quick":
-        files = _tlc_all(chk, ["DmqAuth.cfg", "DmqAuthHist.cfg", "DmqAuthChain.cfg"], 240)
+        files = _tlc_all(chk, ["DmqAuth.cfg", "DmqAuthReplay.cfg", "DmqAuthHist.cfg", "DmqAuthChain.cfg"], 240)
     else:
-        files = _tlc_all(chk, ["DmqAuth.cfg", "DmqAuthThorough.cfg", "DmqAuthChainThorough.cfg"], 540)
+        files = _tlc_all(chk, ["DmqAuth.cfg", "DmqAuthReplay.cfg", "DmqAuthThorough.cfg", "DmqAuthChainThorough.cfg"], 540)
     vlib.run_driver(chk, drv, files, timeout=400)
     if chk.tier == "thorough":
         _binding_selftest(chk, drv, files[0], lambda s: s["c"]["op"] == "verify" and s["e"]["ok"])
